@@ -49,6 +49,7 @@ NB = {"function": 1, "macro": 1, "test": 1, "section": 1, "class": len(SHAPE.get
 
 
 NCP = @@NCP@@            # NS * L
+FILL = @@FILL@@          # concrete filler appended to every symbolic piece (long names / long doc lines)
 
 
 def check(cps: $$CPS$$, b: List[bool]) -> bool:
@@ -57,7 +58,7 @@ def check(cps: $$CPS$$, b: List[bool]) -> bool:
     post: _
     """
     pc = hc.Pieces(cps)
-    nx = lambda: pc.take(L)
+    nx = lambda: pc.take(L) + FILL
     doc = ""
     for i in DOC:
         doc = doc + _shape(i, nx()) + chr(10)
